@@ -694,11 +694,37 @@ def rule_c03(an, res):
                             V(res, prop, 'R-FREED-SLOT-REUSABLE', cm, where_of(m, seg), 'freed slot is not returned to the free side of the slot list',
                               first_site(seg.effs('MOVE', 'UNBIND'), seg, m), 'after path [%s] the slot list is %s: %s (the next insert would evict a live '
                               'entry although a free slot exists, or hand out a live slot)' % (' '.join(seg.valuation()), sim.show(), '; '.join(bad)))
+                if k == 'ERASE':
+                    for b in ops.find_bodies(top, m):
+                        check_erase_truth(res, prop, cm, roles, m, b)
                 if k == 'INSERT' and cm.name in TTL_CACHES:
                     # removals guarded by "the ttl head is expired" read the ttl structure's key: it has to be the entry's deadline
                     from rules_ttl import check_refile
                     for b in ops.find_bodies(top, m):
                         check_refile(res, prop, cm, roles, m, b)
+
+
+def check_erase_truth(res, prop, cm, roles, m, b):
+    """erase reports true exactly when it removed the entry (range form: the count steps exactly then)"""
+    seg = b.seg
+    removed = bool(seg.effs('UNBIND')) and seg.cond('PRESENT') is True
+    val = ' '.join(seg.valuation())
+    if b.in_loop is None:
+        rt = ret_truth(seg)
+        ok = rt == removed
+        res.ob('R-ERASE-TRUTH', ok=ok)
+        if not ok:
+            V(res, prop, 'R-ERASE-TRUTH', cm, b.where, 'erase returns %s on a path that %s the entry' % (rt, 'removes' if removed else 'does not remove'),
+              site_of_seg(seg, m), 'path [%s]' % val)
+    else:
+        var, incs = tally_info(b.top, b)
+        n = len([e for e in incs if e.how != 'decl' and ops.is_increment(e, var)]) if var else None
+        bad = len([e for e in incs if e.how != 'decl']) - (n or 0) if var else 1
+        ok = var is not None and bad == 0 and n == (1 if removed else 0)
+        res.ob('R-ERASE-TRUTH', ok=ok)
+        if not ok:
+            V(res, prop, 'R-ERASE-TRUTH', cm, b.where, 'erase_range count steps by %s on a path that %s an entry' % (n, 'removes' if removed else 'does not remove'),
+              site_of_seg(seg, m), 'path [%s]' % val)
 
 
 def check_removals(res, prop, cm, roles, m, k, seg):
